@@ -606,6 +606,33 @@ var scenarios = []scenario{
 		c.doClient(c.nodes[1], []entryType{entryUpdate, entryRead})
 		c.replicate(1)
 	}, 3, true},
+	{"snapshot-while-a-new-nonvoter-has-matched-nothing", func(c *simCluster) {
+		// the leader's log spans several segments; a non-voter was just added and nothing it sent has been
+		// acknowledged yet (matchIndex 0) when a snapshot completes: its replication still reads the log
+		// from the start, so nothing may be compacted now
+		c.elect(1)
+		c.replicate(1)
+		for k := 0; k < 30; k++ {
+			c.doClient(c.nodes[1], []entryType{entryUpdate, entryUpdate, entryUpdate})
+			if k%3 == 0 {
+				c.replicate(1)
+			}
+		}
+		c.replicate(1)
+		_ = c.addNode(4, nil)
+		c.changeConfigWith(1, func(cfg *Config) {
+			cfg.Nodes[4] = Node{ID: 4, Addr: "M4:8888"}
+		})
+		c.replicate(1, 2, 3)
+		c.doClient(c.nodes[1], []entryType{entryUpdate})
+		c.replicate(1, 2, 3)
+		for k := 0; k < 3; k++ {
+			c.snapshotStep(c.nodes[1])
+		}
+		c.replicate(1) // node 4 is brought up to date from the log
+		c.doClient(c.nodes[1], []entryType{entryUpdate})
+		c.replicate(1)
+	}, 3, false},
 	{"lagging-follower-installs-snapshot", func(c *simCluster) {
 		c.elect(1)
 		c.replicate(1, 2) // node 3 hears nothing
